@@ -67,6 +67,9 @@ def firstSome {α : Type} : List (M (Option α)) → M (Option α)
     | some r => pure (some r)
     | none => firstSome ms
 
+/-- strict-mode check -/
+def failIf (c : Bool) (e : Err) : M Unit := if c then throw e else pure ()
+
 /-! ## Types (`typesystem.Type`, scalar kinds only) -/
 
 inductive TKind where
@@ -142,7 +145,8 @@ def extOfBits (f : Fmt) (b : Nat) : ExtQ :=
 def canonBits (f : Fmt) (b : Nat) : Nat :=
   if isNaNBits f b then f.nanBits else if b = f.signBit then 0 else b
 
-def mkFlt (t : FTag) (b : Nat) : CVal := .flt t (canonBits t.fmt b)
+/-- float constant; bit patterns are canonicalised when the constant node is made (`canonVal`) -/
+def mkFlt (t : FTag) (b : Nat) : CVal := .flt t b
 
 /-- numeric view: `bool` is an `int` -/
 inductive PNum where
@@ -215,6 +219,16 @@ def ExtQ.eq : ExtQ → ExtQ → Bool
 /-- `value >= 0`, `value <= 0` on floats / ints -/
 def CVal.ge0 (v : CVal) : Bool := match v.ext? with | some x => ExtQ.le (.fin 0) x | none => false
 def CVal.le0 (v : CVal) : Bool := match v.ext? with | some x => ExtQ.le x (.fin 0) | none => false
+
+def ExtQ.abs : ExtQ → ExtQ
+  | .nan => .nan
+  | .fin q => .fin (if q < 0 then -q else q)
+  | _ => .pinf
+def ExtQ.neg : ExtQ → ExtQ
+  | .nan => .nan
+  | .fin q => .fin (-q)
+  | .pinf => .ninf
+  | .ninf => .pinf
 
 def ExtQ.isFinite : ExtQ → Bool
   | .fin _ => true | _ => false
@@ -534,13 +548,15 @@ def normalizeLike : Expr → M Expr
     | _ => pure (.bin k x y)
 
 def canonVal : CVal → CVal
-  | .flt t b => mkFlt t b
+  | .flt t b => .flt t (canonBits t.fmt b)
   | .cplx t re im => .cplx t (canonBits t.fmt re) (canonBits t.fmt im)
   | v => v
 
-/-- `make_constant` (`ctx.constant(value, like)`) -/
-def mkConst (v : CVal) (like : Expr) : M Expr := do
-  return .const (canonVal v) (← normalizeLike like)
+/-- `make_constant` (`ctx.constant(value, like)`).  `strict`: check that canonicalising the bit
+pattern does not change the value (always true for patterns of the right width). -/
+def mkConstS (strict : Bool) (v : CVal) (like : Expr) : M Expr :=
+  if strict && (canonVal v).ext? != v.ext? then throw (.inexact "internal:canon")
+  else do return .const (canonVal v) (← normalizeLike like)
 
 /-- `ctx.constant(True/False)`: the like is the symbol `_boolean_value : boolean` -/
 def boolConst (b : Bool) : Expr := .const (.bool b) (.sym "_boolean_value" boolTy)
@@ -806,6 +822,8 @@ def repGuard (cfg : Cfg) (v : CVal) : Bool := !cfg.fp || repOK cfg.work v
 def guardRep (cfg : Cfg) (v : CVal) : M Unit :=
   if repGuard cfg v then pure () else throw (.inexact "constant outside the working format")
 
+def mkConst (cfg : Cfg) (v : CVal) (like : Expr) : M Expr := mkConstS cfg.strict v like
+
 def keyGt (cfg : Cfg) (x y : Expr) : M Bool :=
   match cfg.ord x y with
   | some b => pure b
@@ -840,7 +858,7 @@ def foldArith (cfg : Cfg) (op : AOp) (x y : Expr) : M (Option Expr) :=
         guardRep cfg xv
         guardRep cfg yv
         guardExact cfg "arith" r.ext (match a.ext, b.ext with | .fin p, .fin q => some (op.onRat p q) | _, _ => none)
-        return some (← mkConst r.toCVal xl)
+        return some (← mkConst cfg r.toCVal xl)
       | _, _ => throw (.unsupported "complex fold")
     else pure none
   | _, _ => pure none
@@ -854,11 +872,14 @@ def foldMinMax (cfg : Cfg) (isMin : Bool) (x y : Expr) : M (Option Expr) :=
       | some a, some b => do
         let r ← if isMin then pyMin a b else pyMax a b
         guardSameType cfg xl yl
-        -- Python's min/max return one of the operands unchanged: nothing to check beyond NaN
-        if cfg.strict && (a.ext == .nan || b.ext == .nan) then throw (.inexact "nan")
+        -- strict: the comparison inside Python's min/max must be the comparison of the exact values
+        failIf (cfg.strict && r != (if isMin then (if Rel.lt.onExt b.ext a.ext then b else a)
+                                     else (if Rel.gt.onExt b.ext a.ext then b else a)))
+          (.inexact "min/max after promotion")
+        failIf (cfg.strict && (a.ext == .nan || b.ext == .nan)) (.inexact "nan")
         -- keep the Python type of the chosen operand (bool stays bool)
         let rv : CVal := if r == a then xv else yv
-        return some (← mkConst rv xl)
+        return some (← mkConst cfg rv xl)
       | _, _ => throw .typeError   -- ordering complex numbers
     else pure none
   | _, _ => pure none
@@ -894,25 +915,29 @@ def rMultiply (cfg : Cfg) (x y : Expr) : M (Option Expr) := do
 def rDivide (_cfg : Cfg) (x y : Expr) : M (Option Expr) :=
   if constIs CVal.eq1 y then pure (some x) else pure none
 
-def rAbsolute (_cfg : Cfg) (x : Expr) : M (Option Expr) :=
+def rAbsolute (cfg : Cfg) (x : Expr) : M (Option Expr) :=
   match x with
   | .un .absolute _ => pure (some x)
   | .const v like =>
     if v.isNumber then
       match v.pnum? with
-      | some p => do return some (← mkConst (pyAbs p).toCVal like)
+      | some p => do
+        failIf (cfg.strict && (pyAbs p).ext != p.ext.abs) (.inexact "internal:abs")
+        return some (← mkConst cfg (pyAbs p).toCVal like)
       | none => throw (.unsupported "abs(complex)")
     else pure none
   | _ => pure none
 
-def rNegative (_cfg : Cfg) (x : Expr) : M (Option Expr) :=
+def rNegative (cfg : Cfg) (x : Expr) : M (Option Expr) :=
   match x with
   | .const v like =>
     if v.isNumber then
       match v with
-      | .cplx t re im => do return some (← mkConst (.cplx t (FP.neg t.fmt re) (FP.neg t.fmt im)) like)
+      | .cplx t re im => do return some (← mkConst cfg (.cplx t (FP.neg t.fmt re) (FP.neg t.fmt im)) like)
       | _ => match v.pnum? with
-        | some p => do return some (← mkConst (pyNeg p).toCVal like)
+        | some p => do
+          failIf (cfg.strict && (pyNeg p).ext != p.ext.neg) (.inexact "internal:neg")
+          return some (← mkConst cfg (pyNeg p).toCVal like)
         | none => pure none
     else pure none
   | .un .negative a => pure (some a)
@@ -929,22 +954,18 @@ def rConstant (cfg : Cfg) (v : CVal) (like : Expr) : M (Option Expr) := do
         if v.isNumber then
           if isInstanceDT v d then pure (some none)
           else do
+            failIf (cfg.strict && (match d with | .cx _ => true | .fl _ => false)) (.inexact "complex constant")
             let nv ← castDT d v
-            if cfg.strict then
-              match v.ext?, nv.ext? with
-              | some (.fin p), some (.fin q) => if p == q then pure () else throw (.inexact "cast")
-              | some .pinf, some .pinf => pure ()
-              | some .ninf, some .ninf => pure ()
-              | _, _ => throw (.inexact "cast")
-            return some (some (← mkConst nv like))
+            failIf (cfg.strict && !(nv.ext? == v.ext? && v.ext? != some .nan && v.ext?.isSome)) (.inexact "cast")
+            return some (some (← mkConst cfg nv like))
         else match v with
           | .name s =>
             match d with
             | .fl t =>
               match namedBits t s with
               | some b => do
-                if cfg.strict && cfg.work != some t then throw (.inexact "named constant outside the working dtype")
-                return some (some (← mkConst (mkFlt t b) like))
+                failIf (cfg.strict && cfg.work != some t) (.inexact "named constant outside the working dtype")
+                return some (some (← mkConst cfg (mkFlt t b) like))
               | none => pure (some none)
             | .cx _ => if (namedBits .f64 s).isSome then throw (.unsupported "named complex constant") else pure (some none)
           | _ => pure (some none)
@@ -962,15 +983,16 @@ def rConstant (cfg : Cfg) (v : CVal) (like : Expr) : M (Option Expr) := do
         | some p => do
           let b ← p.castTo .py
           guardExact cfg "float()" (extOfBits binary64 b) p.ext.rat?
-          return some (← mkConst (mkFlt .py b) like)
+          return some (← mkConst cfg (mkFlt .py b) like)
         | none => pure none
     else if typ.kind == .complex && typ.bits.isNone then
+      if cfg.strict then throw (.inexact "complex constant") else
       match v with
       | .cplx .py _ _ => pure none
       | .cplx .f64 _ _ => pure none   -- numpy.complex128 is a Python complex
-      | .cplx s re im => pure (some (← mkConst (.cplx .py (convert s.fmt binary64 re) (convert s.fmt binary64 im)) like))
+      | .cplx s re im => pure (some (← mkConst cfg (.cplx .py (convert s.fmt binary64 re) (convert s.fmt binary64 im)) like))
       | _ => match v.pnum? with
-        | some p => do return some (← mkConst (.cplx .py (← p.castTo .py) 0) like)
+        | some p => do return some (← mkConst cfg (.cplx .py (← p.castTo .py) 0) like)
         | none => pure none
     else pure none
 
@@ -985,9 +1007,9 @@ def rDowncast (_cfg : Cfg) (x : Expr) : M (Option Expr) :=
   | _ => pure none
 
 /-- `log`, `log10`, `log2`: `f(1) -> 0` -/
-def rLog (_cfg : Cfg) (x : Expr) : M (Option Expr) :=
+def rLog (cfg : Cfg) (x : Expr) : M (Option Expr) :=
   match x with
-  | .const v like => if v.isNumber && v.eq1 then do return some (← mkConst (.int 0) like) else pure none
+  | .const v like => if v.isNumber && v.eq1 then do return some (← mkConst cfg (.int 0) like) else pure none
   | _ => pure none
 
 def rLog1p (_cfg : Cfg) (x : Expr) : M (Option Expr) :=
@@ -1012,9 +1034,9 @@ def rLogicalAnd (cfg : Cfg) (x y : Expr) : M (Option Expr) :=
       | _ => none),
     (do if (← keyGt cfg x y) then pure (some (.bin .logical_and y x)) else pure none)]
 
-def rLogicalNot (_cfg : Cfg) (x : Expr) : M (Option Expr) :=
+def rLogicalNot (cfg : Cfg) (x : Expr) : M (Option Expr) :=
   match x with
-  | .const (.bool b) like => do return some (← mkConst (.bool (!b)) like)
+  | .const (.bool b) like => do return some (← mkConst cfg (.bool (!b)) like)
   | .bin .eq a b => pure (some (.bin .ne a b))
   | .bin .ne a b => pure (some (.bin .eq a b))
   | .bin .lt a b => pure (some (.bin .le b a))
@@ -1057,12 +1079,12 @@ def rLogicalOr (cfg : Cfg) (x y : Expr) : M (Option Expr) :=
     pure (if x == y then some x else none),
     (do if (← keyGt cfg x y) then pure (some (.bin .logical_or y x)) else pure none)]
 
-def rConjugate (_cfg : Cfg) (x : Expr) : M (Option Expr) :=
+def rConjugate (cfg : Cfg) (x : Expr) : M (Option Expr) :=
   match x with
   | .const v like =>
     match v with
     | .flt .. => pure (some x)
-    | .cplx t re im => do return some (← mkConst (.cplx t re (FP.neg t.fmt im)) like)
+    | .cplx t re im => do return some (← mkConst cfg (.cplx t re (FP.neg t.fmt im)) like)
     | _ => pure none
   | .bin .complex re im => pure (some (.bin .complex re (.un .negative im)))
   | .un .conjugate _ => pure (some x)
@@ -1137,11 +1159,10 @@ def compareFold (cfg : Cfg) (r : Rel) (x y : Expr) : M (Option Bool) :=
           let res ← pyRel r a b
           guardRep cfg xv
           guardRep cfg yv
-          if cfg.strict && (a.ext == .nan || b.ext == .nan) then throw (.inexact "nan")
-          if cfg.strict then
-            -- the comparison must be the comparison of the exact values (casts inside NumPy's
-            -- promotion may round)
-            if res != r.onExt a.ext b.ext then throw (.inexact "comparison after promotion")
+          failIf (cfg.strict && (a.ext == .nan || b.ext == .nan)) (.inexact "nan")
+          -- strict: the comparison must be the comparison of the exact values (casts inside
+          -- NumPy's promotion may round)
+          failIf (cfg.strict && res != r.onExt a.ext b.ext) (.inexact "comparison after promotion")
           return some res
         | _, _ =>
           match r with
@@ -1223,13 +1244,10 @@ def evalFn (cfg : Cfg) (isSqrt : Bool) (like : Expr) (p : PNum) : M (Option Expr
         let a ← p.castTo t
         let r := if isSqrt then FP.sqrt t.fmt a else FP.mul t.fmt a a
         let re := extOfBits t.fmt r
-        if cfg.strict then
-          match p.ext, re with
-          | .fin q, .fin s =>
-            if isSqrt then (if s * s == q && s ≥ 0 then pure () else throw (.inexact "sqrt"))
-            else (if s == q * q then pure () else throw (.inexact "square"))
-          | _, _ => throw (.inexact "eval")
-        return some (some (← mkConst (mkFlt t r) like))
+        failIf (cfg.strict && !(match p.ext, re with
+          | .fin q, .fin s => if isSqrt then (s * s == q && decide (s ≥ 0)) else s == q * q
+          | _, _ => false)) (.inexact "eval")
+        return some (some (← mkConst cfg (mkFlt t r) like))
       | some (.cx _) => throw (.unsupported "complex eval")
       | none => pure none
     else pure none
@@ -1245,16 +1263,15 @@ def evalFn (cfg : Cfg) (isSqrt : Bool) (like : Expr) (p : PNum) : M (Option Expr
         | .fin q => if q < 0 then throw .valueError
         | _ => pure ()
         let r := FP.sqrt binary64 a
-        if cfg.strict then
-          match p.ext, extOfBits binary64 r with
-          | .fin q, .fin s => if s * s == q && s ≥ 0 then pure () else throw (.inexact "sqrt")
-          | _, _ => throw (.inexact "eval")
-        return some (← mkConst (mkFlt .py r) like)
+        failIf (cfg.strict && !(match p.ext, extOfBits binary64 r with
+          | .fin q, .fin s => s * s == q && decide (s ≥ 0)
+          | _, _ => false)) (.inexact "eval")
+        return some (← mkConst cfg (mkFlt .py r) like)
       else do
         -- `x * x` on the raw Python value
         let r ← pyArith .mul p p
         guardExact cfg "square" r.ext (match p.ext with | .fin q => some (q * q) | _ => none)
-        return some (← mkConst r.toCVal like)
+        return some (← mkConst cfg r.toCVal like)
     else pure none
 
 def rSqrt (cfg : Cfg) (x : Expr) : M (Option Expr) :=
@@ -1278,14 +1295,14 @@ def rSquare (cfg : Cfg) (x : Expr) : M (Option Expr) :=
     else pure none
   | _ => pure none
 
-def rSign (_cfg : Cfg) (x : Expr) : M (Option Expr) :=
+def rSign (cfg : Cfg) (x : Expr) : M (Option Expr) :=
   match x with
   | .const v like =>
     match v with
     | .flt t b =>
       let e := extOfBits t.fmt b
-      if v.eq0 then do return some (← mkConst (.int 0) like)
-      else do return some (← mkConst (.int (if ExtQ.lt (.fin 0) e then 1 else -1)) like)
+      if v.eq0 then do return some (← mkConst cfg (.int 0) like)
+      else do return some (← mkConst cfg (.int (if ExtQ.lt (.fin 0) e then 1 else -1)) like)
     | _ => pure none
   | .un .sign _ => pure (some x)
   | _ => pure none
@@ -1362,7 +1379,7 @@ def rewriteDeep (cfg : Cfg) (fuel : Nat) : Expr → M Expr
   | .sym n t => modifier cfg fuel (.sym n t)
   | .const v like => do
     let like' ← rewriteDeep cfg fuel like
-    let e' ← if like' == like then pure (.const v like) else mkConst v like'
+    let e' ← if like' == like then pure (.const v like) else mkConst cfg v like'
     modifier cfg fuel e'
   | .un k x => do
     let x' ← rewriteDeep cfg fuel x
